@@ -930,14 +930,13 @@ func (q *TransferQueue) handleTransferResult(
 			// If the error wasn't retriable, OR the object has
 			// exceeded its retry budget, it will be NOT be sent to
 			// the retry channel, and the error will be reported
-			// immediately (unless the error is in response to a
-			// HTTP 422).
+			// immediately (an HTTP 422 additionally triggers a
+			// hint about Content-Type detection in Wait()).
 			if errors.IsUnprocessableEntityError(res.Error) {
 				q.unsupportedContentType = true
-			} else {
-				verifhook.Yield("handler.errc.fail", q)
-				q.errorc <- res.Error
 			}
+			verifhook.Yield("handler.errc.fail", q)
+			q.errorc <- res.Error
 			verifhook.Yield("handler.wgdone.fail", q)
 			verifhook.Event("wg-1", q, oid, "transfer-failed", res.Error)
 			q.wait.Done()
